@@ -320,7 +320,7 @@ def cmd_source_bytes(ctx):
     ctx.require(n >= 1, "cmd.py: no open() call found (the output file is written through open())")
 
 
-@rule("C08.one-pipeline", min_instances=8, props=["C18"])
+@rule("C08.one-pipeline", min_instances=8, props=["C18", "C10"])
 def one_pipeline(ctx):
     """string, file and module-directory templates are compiled by the same _compile with identical wiring; all render entry points funnel into runtime._render / _render_context; the lookup mirrors Template's options"""
     db = ctx.db
